@@ -406,6 +406,7 @@ BUILTIN_EXC = {n for n in dir(_bi) if isinstance(getattr(_bi, n), type) and issu
 
 
 class Interp:
+    external_exc_bases: Dict[str, List[str]] = {}  # exception class of a library -> every name under which a handler catches it
     def __init__(self, repo: Repo, hooks: Optional[Hooks] = None, max_depth: int = 4, max_paths: int = 20000,
                  while_bound: int = 2, max_steps: int = 200000):
         self.repo = repo
@@ -720,6 +721,11 @@ class Interp:
             tname = t.name if isinstance(t, (Builtin, ModRef)) else (t.qual if isinstance(t, ClassRef) else None)
             if tname is None:
                 raise Unsupported(f'handler type {vrepr(t)}')
+            if exc.cls in self.external_exc_bases:
+                # an exception class of a third-party library whose ancestry is a recorded fact: caught exactly by the classes it derives from
+                if tname in self.external_exc_bases[exc.cls]:
+                    return True
+                continue
             if isinstance(t, ModRef):
                 # external exception class: matches only the very same class name
                 if exc.cls == tname or exc.cls == tname.rsplit('.', 1)[-1]:
